@@ -531,6 +531,9 @@ class CommandPipeline:
             if stream:
                 try:
                     if stdout_has_buffer:
+                        # text the caller wrote before and has not flushed
+                        # yet must not be overtaken by these bytes
+                        out_target.flush()
                         out_target.buffer.write(line)
                     else:
                         out_target.write(line.decode(encoding=enc, errors=err))
